@@ -24,10 +24,13 @@ PROPERTY = {
         Harness("c03_token_new", "C03.token_new.normalise", "PROVED-C", "Token::new maps i64::MIN to i64::MAX, identity otherwise", functions=["scylla/src/routing/mod.rs:Token::new"]),
         Harness("c03_cdc_token", "C03.cdc.token", "PROVED-C", "CDC token = first 8 bytes BE (normalised) for keys up to 10 bytes under every 3-chunking; < 8 bytes => minimum token", functions=[F + "CDCPartitionerHasher::write", F + "CDCPartitionerHasher::finish"]),
         Harness("c03_partitioner_name", "C03.partitioner_name", "PROVED-C", "suffix match selects Murmur3 / CDC / none", functions=[F + "PartitionerName::from_str"]),
+        Harness("c03_pk_layout_single", "C03.partition_key.layout.1", "BOUNDED", "single key column at any of 4 markers: hashed stream = its bytes", bound="4 bind markers, values <= 2 bytes", functions=["scylla/src/statement/prepared.rs:PartitionKey::new", "scylla/src/statement/prepared.rs:PartitionKey::write_encoded_partition_key"]),
+        Harness("c03_pk_layout_two", "C03.partition_key.layout.2", "BOUNDED", "2 key columns at any markers in any key order: be16(len) bytes 0 per component in partition-key order", bound="4 bind markers, values <= 2 bytes", functions=["scylla/src/statement/prepared.rs:PartitionKey::new", "scylla/src/statement/prepared.rs:PartitionKey::write_encoded_partition_key"]),
+        Harness("c03_pk_layout_three", "C03.partition_key.layout.3", "BOUNDED", "3 key columns at any markers in any key order, one non-key marker interleaved", bound="4 bind markers, values <= 2 bytes", tier="thorough", functions=["scylla/src/statement/prepared.rs:PartitionKey::new"]),
         Harness("c03_canary_token_is_zero", "C03.canary", "PROVED-C", "a false claim must be refuted", carries=False, canary=True),
     ],
     "verus": [],
     "trusted_base": ["Kani/CBMC soundness; cvc5 for hash equalities", "std::rt::thread_cleanup stub"],
     "assumptions": [],
-    "not_covered": ["PartitionKey::write_encoded_partition_key / calculate_token_for_partition_key composite layout (pending)", "partitioner name of the statement == table's (metadata)"],
+    "not_covered": ["calculate_token_for_partition_key (the SerializedValues-based variant) and null key components", "partitioner name of the statement == table's (metadata)"],
 }
